@@ -265,6 +265,12 @@ pub fn replay(prop: &str, rp: &Value) -> Vec<Violation> {
                     std::process::exit(2)
                 }
             };
+            if case.op == "teardown" {
+                let p: &'static str = ALL.iter().find(|x| **x == prop).copied().unwrap_or("C20");
+                let mut acc = Acc::default();
+                crate::teardown::judge(p, case.text.first().map(|s| s.as_str()).unwrap_or("tcp"), &mut acc);
+                return acc.violations.into_values().map(|(v, _)| v).collect();
+            }
             let Some(j) = in_judge(prop) else {
                 eprintln!("MACHINERY-FAILURE: {prop} has no input-space judge");
                 std::process::exit(2)
